@@ -85,13 +85,26 @@ fn by_ref_extend_check(plan: Plan, items: &[(u32, u64)]) -> Result<(), Bad> {
     }
     // C08: new keys that fit into capacity()-len() must not make the by-reference impls allocate,
     // whatever the iterator's upper size bound claims (a filtered iterator claims more than it yields)
-    let mut roomy: M = M::with_capacity_and_hasher_in(pairs.len().max(1), PlanBuildHasher::new(plan), CheckAlloc);
-    let st0 = alloc::stats();
     let keep_every = 3;
+    let selected: Vec<&(ArrKey, u64)> = pairs.iter().enumerate().filter(|(i, _)| i % keep_every == 0).map(|(_, e)| e).collect();
+    let mut distinct: Vec<u32> = selected.iter().map(|e| e.0.id).collect();
+    distinct.sort_unstable();
+    distinct.dedup();
+    let mut roomy: M = M::with_capacity_and_hasher_in(pairs.len().max(1), PlanBuildHasher::new(plan), CheckAlloc);
+    // fill with foreign keys until the room left is the number of new keys plus one: the spare slot
+    // keeps inserts of keys that are already present (repeats inside the slice) from growing the
+    // table, which HashMap::insert is allowed to do at growth_left == 0 (DESIGN 11.2)
+    let mut filler = 3_000_000u32;
+    while roomy.capacity() - roomy.len() > distinct.len() + 1 {
+        roomy.insert(ArrKey { id: filler, tag: 0 }, 0);
+        filler += 1;
+    }
+    let room = roomy.capacity() - roomy.len();
+    let st0 = alloc::stats();
     roomy.extend(pairs.iter().enumerate().filter(|(i, _)| i % keep_every == 0).map(|(_, e)| e));
     let st1 = alloc::stats();
-    if st1.n_alloc != st0.n_alloc {
-        bad!("C08", "insert-within-capacity-allocated", "Extend<&(K, V)> of at most {} new keys into a map with capacity {} called the allocator", pairs.len().div_ceil(keep_every), pairs.len().max(1));
+    if room > distinct.len() && st1.n_alloc != st0.n_alloc {
+        bad!("C08", "insert-within-capacity-allocated", "Extend<&(K, V)> of {} new keys (iterator upper bound {}) into a map with capacity()-len() = {room} called the allocator", distinct.len(), pairs.len());
     }
     Ok(())
 }
